@@ -675,8 +675,8 @@ def predict_frames(sc, out_lines, freq, K):
             cur = meta
         if t == "F" and d.get("api") == "bufferless":
             continue
-        if "W" not in d:
-            continue
+        if not all(k in d for k in ("W", "lde", "dms", "fnc", "ntu", "ofs", "ap", "bsmax")):
+            continue      # truncated line (the harness died) or a line without state
         predictable = False
         if t == "F" and d.get("api") == "oneshot" and "cerr" not in d:
             size = int(d["size"]); bsmax = int(d["bsmax"])
@@ -772,7 +772,7 @@ def oracle_failures(out_lines, K):
                 fails.append((i, "frame does not round-trip: " + ln[:300]))
             elif d.get("fresh") != "1":
                 fails.append((i, "reused context output differs from fresh context output: " + ln[:300]))
-        if "idx" in d and not (0 <= int(d["idx"]) <= limit):
+        if "idx" in d and d["idx"].lstrip("-").isdigit() and not (0 <= int(d["idx"]) <= limit):
             fails.append((i, "index out of the 32-bit range: " + ln[:300]))
     return nf, fails
 
@@ -841,8 +841,13 @@ def ctx_job(exe, mexe, freq, K, seed, arena_mb, quick, extra_cmds=None):
     res["frames"] = nf
     res["fails"] = fails
     res["big"] = [parse_ctx_line(l) for l in lines if l.startswith("G ")]
-    res["max_nbovf"] = max([ints(parse_ctx_line(l)["W"])[5] for l in lines if " W=" in l] or [0])
-    res["max_idx"] = max([int(parse_ctx_line(l)["idx"]) for l in lines if " idx=" in l] or [0])
+    def _safe(f, l):
+        try:
+            return f(parse_ctx_line(l))
+        except (KeyError, ValueError, IndexError):
+            return 0
+    res["max_nbovf"] = max([_safe(lambda d: ints(d["W"])[5], l) for l in lines if " W=" in l] or [0])
+    res["max_idx"] = max([_safe(lambda d: int(d["idx"]), l) for l in lines if " idx=" in l] or [0])
     model, expect = predict_frames(sc, lines, freq, K)
     rc2, mout, e2 = run_lines(mexe, [str(freq)], model, 900)
     if rc2 != 0 or len(mout) != len(model):
